@@ -797,7 +797,7 @@ fn generate(ctx: &Ctx) {
 
   // (a) every member subset
   let mut a = Vec::new();
-  let a_opts: &[u8] = if thorough { &[0, 255, 2, 0b0000_1101] } else { &[0, 255] };
+  let a_opts: &[u8] = if thorough { &[0, 255, 1, 2, 4, 8, 16, 32, 64, 128] } else { &[0, 255] };
   for kty in 0..4u8 {
     for members in 0..(1u16 << 13) {
       for &opts in a_opts {
